@@ -269,3 +269,211 @@ macro_rules! chunked_u128 {
 chunked_u128!(c10_chunked_u128_65, 65, 1, 130);
 chunked_u128!(c10_chunked_u128_129, 129, 2, 131);
 chunked_u128!(c10_chunked_u128_193, 193, 2, 195);
+
+// =============================================================================================
+// Segment harnesses (see runner/segments.py): synchronous statement runs between two awaits.
+include!("/verif/harness/segs_faand.rs");
+
+/// Environment stand-in for the BLAKE3 commitment check inside cut segments: an arbitrary
+/// verdict per call (the hash itself is not the subject; DESIGN §2 item 2).
+fn env_open_commitment(_c: &Commitment, _v: &[u8]) -> bool {
+    kani::any()
+}
+
+fn sh2(bit: bool, m0: u128, k0: u128, m1: u128, k1: u128) -> Share {
+    Share(bit, Auth(vec![(Mac(m0), Key(k0)), (Mac(m1), Key(k1))]))
+}
+
+fn any_share2() -> Share {
+    sh2(kani::any(), kani::any(), kani::any(), kani::any(), kani::any())
+}
+
+/// C02/C04 - bucket combination, opening of the d-values (n = 2, own index 0, one bucket of
+/// three triples, i.e. two d-values): whatever the peer sent (lengths of the inner vectors
+/// included), Ok(d) implies that the peer opened exactly two d-bits with two MACs that verify
+/// under the own keys, and d is own ^ peer. No input may panic (C08).
+#[kani::proof]
+#[kani::unwind(6)]
+#[kani::stub(std::fmt::format, no_format)]
+fn c04_check_dvalue_tail_n2_b3() {
+    let delta = Delta(kani::any());
+    let ys = [any_share2(), any_share2(), any_share2()];
+    let xs = [any_share2(), any_share2(), any_share2()];
+    let zs = [any_share2(), any_share2(), any_share2()];
+    let ykeys = [ys[0].1 .0[1].1 .0, ys[1].1 .0[1].1 .0, ys[2].1 .0[1].1 .0];
+    let own_d = [ys[0].0 ^ ys[1].0, ys[0].0 ^ ys[2].0];
+    let bucket: Bucket = vec![(&xs[0], &ys[0], &zs[0]), (&xs[1], &ys[1], &zs[1]), (&xs[2], &ys[2], &zs[2])];
+    let buckets = [bucket];
+    // peer's message: one entry (outer length is checked by recv_vec_from), inner lengths free
+    let pd = any_vec_bool_le3();
+    let pm_len: u8 = kani::any();
+    let pm: Vec<Mac> = match pm_len {
+        0 => vec![],
+        1 => vec![Mac(kani::any())],
+        2 => vec![Mac(kani::any()), Mac(kani::any())],
+        _ => vec![Mac(kani::any()), Mac(kani::any()), Mac(kani::any())],
+    };
+    let pd_len = pd.len();
+    let pm_len = pm.len();
+    let pd0 = if pd_len > 0 { pd[0] } else { false };
+    let pd1 = if pd_len > 1 { pd[1] } else { false };
+    let pm0 = if pm_len > 0 { pm[0].0 } else { 0 };
+    let pm1 = if pm_len > 1 { pm[1].0 } else { 0 };
+    let r = seg_check_dvalue_tail(delta, 0, 2, &buckets, vec![vec![own_d[0], own_d[1]]], 1, vec![vec![], vec![(pd, pm)]]);
+    let ok = r.is_ok();
+    kani::cover!(ok, "dvalue_ok_reachable");
+    kani::cover!(!ok, "dvalue_err_reachable");
+    if let Ok(d) = &r {
+        assert!(pd_len >= 2 && pm_len >= 2, "C02:dvalue:short-or-empty-opening-not-accepted");
+        if pd_len >= 2 && pm_len >= 2 {
+            assert!(pm0 == ykeys[0] ^ ykeys[1] ^ (if pd0 { delta.0 } else { 0 }), "C04:dvalue:MAC-of-d1-verified");
+            assert!(pm1 == ykeys[0] ^ ykeys[2] ^ (if pd1 { delta.0 } else { 0 }), "C04:dvalue:MAC-of-d2-verified");
+            assert!(d.len() == 1 && d[0].len() == 2 && d[0][0] == (own_d[0] ^ pd0) && d[0][1] == (own_d[1] ^ pd1), "C10:dvalue:d==own^peer");
+        }
+    }
+    std::mem::forget(r);
+    std::mem::forget(buckets);
+    std::mem::forget((xs, ys, zs));
+}
+
+/// C04/C10 - Beaver derandomisation, tail after the (d,e) exchange (n = 2, own index 0, one
+/// triple): Ok(s) implies the peer's d/e MACs verified under the own keys of the d/e shares and
+///   s = c ^ (d ? beta : 0) ^ (e ? a : 0)   with d = d_own ^ d_peer, e = e_own ^ e_peer
+/// (bit, and MAC/key towards the peer).
+#[kani::proof]
+#[kani::unwind(4)]
+#[kani::stub(std::fmt::format, no_format)]
+fn c04_beaver_tail_n2() {
+    let delta = Delta(kani::any());
+    // raw components: [a, b, c, alpha, beta] x (bit, mac1, key1); entry 0 (own index) is zero
+    let bits: [bool; 5] = [kani::any(), kani::any(), kani::any(), kani::any(), kani::any()];
+    let m: [u128; 5] = [kani::any(), kani::any(), kani::any(), kani::any(), kani::any()];
+    let k: [u128; 5] = [kani::any(), kani::any(), kani::any(), kani::any(), kani::any()];
+    let s = |c: usize| Share(bits[c], Auth(vec![(Mac(0), Key(0)), (Mac(m[c]), Key(k[c]))]));
+    let d_own = bits[0] ^ bits[3];
+    let e_own = bits[1] ^ bits[4];
+    let dsh = Share(d_own, Auth(vec![(Mac(0), Key(0)), (Mac(m[0] ^ m[3]), Key(k[0] ^ k[3]))]));
+    let esh = Share(e_own, Auth(vec![(Mac(0), Key(0)), (Mac(m[1] ^ m[4]), Key(k[1] ^ k[4]))]));
+    let (pd, pe, pdm, pem): (bool, bool, u128, u128) = (kani::any(), kani::any(), kani::any(), kani::any());
+    let ab = [(s(3), s(4))];
+    let r = seg_beaver_tail(
+        delta,
+        0,
+        2,
+        1,
+        vec![(s(0), s(1), s(2))],
+        &ab,
+        vec![(dsh, esh)],
+        vec![(d_own, e_own, Mac(0), Mac(0))],
+        vec![vec![], vec![(pd, pe, Mac(pdm), Mac(pem))]],
+    );
+    let ok = r.is_ok();
+    kani::cover!(ok, "beaver_ok_reachable");
+    kani::cover!(!ok, "beaver_err_reachable");
+    if let Ok(sv) = &r {
+        assert!(pdm == (k[0] ^ k[3]) ^ (if pd { delta.0 } else { 0 }), "C04:beaver:MAC-of-d-verified");
+        assert!(pem == (k[1] ^ k[4]) ^ (if pe { delta.0 } else { 0 }), "C04:beaver:MAC-of-e-verified");
+        assert!(sv.len() == 1, "C10:beaver:one-share-per-triple");
+        if sv.len() == 1 {
+            let d = d_own ^ pd;
+            let e = e_own ^ pe;
+            let eb = bits[2] ^ (d & bits[4]) ^ (e & bits[0]);
+            let em = m[2] ^ (if d { m[4] } else { 0 }) ^ (if e { m[0] } else { 0 });
+            let ek = k[2] ^ (if d { k[4] } else { 0 }) ^ (if e { k[0] } else { 0 });
+            assert!(sv[0].0 == eb, "C10:beaver:bit==c^d*beta^e*a");
+            assert!(sv[0].1 .0.len() == 2 && sv[0].1 .0[1].0 .0 == em && sv[0].1 .0[1].1 .0 == ek, "C10:beaver:mac/key==c^d*beta^e*a");
+        }
+    }
+    std::mem::forget(r);
+    std::mem::forget(ab);
+}
+
+
+/// Peer's decommitment for one check object with an arbitrary inner length 0..=17 and
+/// arbitrary content (recv_vec_from only validates the outer length).
+fn any_dm_le17(a: [u8; 17]) -> Vec<u8> {
+    let l: u8 = kani::any();
+    match l {
+        0 => vec![],
+        1 => vec![a[0]],
+        16 => vec![a[0], a[1], a[2], a[3], a[4], a[5], a[6], a[7], a[8], a[9], a[10], a[11], a[12], a[13], a[14], a[15]],
+        _ => vec![a[0], a[1], a[2], a[3], a[4], a[5], a[6], a[7], a[8], a[9], a[10], a[11], a[12], a[13], a[14], a[15], a[16]],
+    }
+}
+
+fn dm17(a: [u8; 17]) -> Vec<u8> {
+    vec![a[0], a[1], a[2], a[3], a[4], a[5], a[6], a[7], a[8], a[9], a[10], a[11], a[12], a[13], a[14], a[15], a[16]]
+}
+
+fn mac_of(a: &[u8; 17]) -> u128 {
+    let mut mb = [0u8; 16];
+    let mut b = 0;
+    while b < 16 {
+        mb[b] = a[1 + b];
+        b += 1;
+    }
+    u128::from_be_bytes(mb)
+}
+
+/// C07/C08 - aShare consistency round, step 3c (n = 2, own index 0; the statistical parameter
+/// is lowered to 2 check objects inside the cut segment, both symbolic): (C08) no peer
+/// decommitment may panic; (C07) the value opened for an object is d0 ^ (claimed bit * delta)
+/// only if the peer's claim is backed by a MAC that verifies under the own key (= d0 for
+/// n = 2) - otherwise a lying peer obtains d0 ^ delta and, with the MAC it holds, the global key.
+#[kani::proof]
+#[kani::unwind(20)]
+#[kani::stub(std::fmt::format, no_format)]
+fn c07_fashare_3c_n2() {
+    let delta: u128 = kani::any();
+    let key: [u128; 2] = kani::any(); // own keys for the peer's check bits = d0 (n = 2)
+    let own: [[u8; 17]; 2] = kani::any();
+    let peer: [[u8; 17]; 2] = kani::any();
+    let p0 = any_dm_le17(peer[0]);
+    let p1 = any_dm_le17(peer[1]);
+    let lens = [p0.len(), p1.len()];
+    let dm_k = vec![vec![dm17(own[0]), dm17(own[1])], vec![p0, p1]];
+    let r = seg_fashare_3c(0, 2, dm_k, vec![key[0], key[1]], vec![key[0] ^ delta, key[1] ^ delta]);
+    let ok = r.is_ok();
+    kani::cover!(ok, "fashare3c_ok_reachable");
+    kani::cover!(!ok, "fashare3c_err_reachable");
+    if let Ok(di_bi) = &r {
+        assert!(di_bi.len() == 2, "C10:fashare3c:one-opening-per-check-object");
+        let mut j = 0;
+        while j < 2 {
+            let claimed = peer[j][0];
+            assert!(lens[j] == 0 || claimed <= 1, "C04:fashare3c:non-bit-claim-rejected");
+            let opened = di_bi[j];
+            assert!(opened == key[j] || opened == key[j] ^ delta, "C07:fashare3c:opens-d0-or-d1");
+            if opened == (key[j] ^ delta) && delta != 0 {
+                assert!(lens[j] == 17 && mac_of(&peer[j]) == key[j] ^ delta, "C07:fashare3c:d0^delta-opened-only-for-a-claim-whose-MAC-verifies");
+            }
+            j += 1;
+        }
+    }
+    std::mem::forget(r);
+}
+
+/// C04 - aShare consistency round, step 3d (n = 2, own index 0, 2 check objects): Ok implies
+/// that for every check object the XOR of the MACs decommitted for the peer equals the value
+/// the peer opened (AShareWrongMAC otherwise) and that one of its two commitments opened;
+/// BLAKE3 opening verdicts are arbitrary (environment).
+#[kani::proof]
+#[kani::unwind(20)]
+#[kani::stub(std::fmt::format, no_format)]
+fn c04_fashare_3d_n2() {
+    let own: [[u8; 17]; 2] = kani::any();
+    let peer: [[u8; 17]; 2] = kani::any();
+    let opened: [u128; 2] = kani::any();
+    let dm_k = vec![vec![dm17(own[0]), dm17(own[1])], vec![dm17(peer[0]), dm17(peer[1])]];
+    let di_bi_k = vec![vec![], vec![opened[0], opened[1]]];
+    let z = Commitment([0u8; 32]);
+    let comm = vec![vec![(z, z, z), (z, z, z)], vec![(z, z, z), (z, z, z)]];
+    let r = seg_fashare_3d(0, 2, dm_k, di_bi_k, comm);
+    let ok = r.is_ok();
+    kani::cover!(ok, "fashare3d_ok_reachable");
+    kani::cover!(!ok, "fashare3d_err_reachable");
+    if ok {
+        assert!(mac_of(&own[0]) == opened[0] && mac_of(&own[1]) == opened[1], "C04:fashare3d:Ok-implies-xor-of-MACs==opened-key-sum");
+    }
+    std::mem::forget(r);
+}
